@@ -138,7 +138,7 @@ const HARNESSES: &[HarnessDef] = &[
     HarnessDef { name: "crdt_vectorclock", entry: "replication::crdt_dst::VectorClockDSTHarness; run(500), sync_all, check_convergence", presets: &["new3", "calm", "moderate", "chaos"], seeds: (8, 64) },
     HarnessDef { name: "dst_simulation", entry: "simulator::DSTSimulation::with_config(DSTConfig::<preset>(seed)); step() x <=2000 until max_time, finalize() (= run_operations)", presets: &["new", "calm", "chaos"], seeds: (8, 64) },
     HarnessDef { name: "redis_dst", entry: "simulator::dst_integration::RedisDSTSimulation; run(400)", presets: &["zipfian", "zipfian_skew15", "uniform", "zipfian_calm", "zipfian_chaos"], seeds: (8, 64) },
-    HarnessDef { name: "multi_node", entry: "simulator::MultiNodeSimulation driven by a fixed script that draws from sim.rng (SET/DEL/GET, gossip rounds, partitions, heal, converge)", presets: &["broadcast3", "broadcast5_lossy", "partitioned5_rf3", "no_anti_entropy3"], seeds: (8, 64) },
+    HarnessDef { name: "multi_node", entry: "simulator::MultiNodeSimulation driven by a fixed script that draws from sim.rng (SET/DEL/GET, gossip rounds, partitions, heal, converge)", presets: &["broadcast3", "broadcast5_lossy", "partitioned5_rf3", "no_anti_entropy3", "broadcast3_sync_limit3"], seeds: (8, 64) },
     HarnessDef { name: "partition", entry: "simulator::partition_tests::run_partition_test with PartitionConfig::<preset>", presets: &["isolate_node", "split_brain", "asymmetric", "ring"], seeds: (8, 64) },
     HarnessDef { name: "scenario", entry: "simulator::ScenarioBuilder / SimulationHarness with a fixed script", presets: &["plain", "buggify", "buggify_eviction"], seeds: (8, 64) },
     HarnessDef { name: "event_sim", entry: "simulator::Simulation (event queue) with a fixed handler: timers, messages, replies", presets: &["default", "drop20", "partitioned"], seeds: (8, 64) },
@@ -415,6 +415,15 @@ fn run_harness(h: &str, preset: &str, seed: u64) -> Result<Fields, String> {
                 "broadcast5_lossy" => M::new(5, seed).with_packet_loss(0.2).with_message_delay(1, 50),
                 "partitioned5_rf3" => M::new_partitioned(5, 3, seed),
                 "no_anti_entropy3" => M::new_without_anti_entropy(3, seed),
+                // a per-exchange key limit below the number of divergent keys: WHICH keys an exchange carries must be a
+                // function of the seed too
+                "broadcast3_sync_limit3" => {
+                    let mut m = M::new(3, seed);
+                    for node in m.nodes.iter_mut() {
+                        node.anti_entropy.config.max_keys_per_sync = 3;
+                    }
+                    m
+                }
                 _ => return bad(),
             };
             let n = sim.nodes.len();
